@@ -113,12 +113,12 @@ MinSSDS(xs, m, j, Lc) ==
   ELSE SetMin({MinSSDS(xs, s - 1, j - 1, Lc) + SSDS(xs, s, m, Lc) : s \in j..m})
 \* the observed classes as a partition of the sorted sample: since classes are monotone in the value
 \* (Common), class c holds a contiguous run of the sorted sample
+FiniteValsOfClass(c, cl) == [n \in 1..Len(c.vals) |-> IF IsFinite(c.vals[n]) /\ c.out[n] = cl THEN c.vals[n] ELSE NaN]
 RECURSIVE RealisedS(_, _, _, _)
 RealisedS(c, xs, cl, Lc) ==
   IF cl = c.k THEN 0
   ELSE LET ms == SortInts(SelectSeq(FiniteValsOfClass(c, cl), IsFinite)) IN
        (IF ms = <<>> THEN 0 ELSE SSDS(ms, 1, Len(ms), Lc)) + RealisedS(c, xs, cl + 1, Lc)
-FiniteValsOfClass(c, cl) == [n \in 1..Len(c.vals) |-> IF IsFinite(c.vals[n]) /\ c.out[n] = cl THEN c.vals[n] ELSE NaN]
 
 NbClause(c) ==
   LET xs == Sorted(c)
